@@ -5,6 +5,7 @@ import (
 	"fmt"
 	"math/big"
 	"strings"
+	"sync"
 	"testing"
 	"testing/synctest"
 	"time"
@@ -295,6 +296,10 @@ func c12Levels(r *core.Run) {
 			r.Violate("C12:crl-fetched-without-revocation-option", "collateral level fetched %s although revocation checking is off", rq.URL)
 		}
 	}
+	if fault == "none" && w.PCS != nil && acc[O2] {
+		// (only worlds whose honest quote is accepted with revocation checking — Processor-CA worlds are not)
+		c12Overlap(r, w, raw, pool, times)
+	}
 	wantFmspc := fmt.Sprintf("%x", w.P.Ext.FMSPC[:])
 	for _, level := range []int{O1, O2} {
 		for _, rq := range logs[level] {
@@ -542,8 +547,10 @@ func c12Clock(r *core.Run) {
 
 func init() {
 	register(&core.Check{
-		ID:    "C12",
-		Level: "exploration",
+		ID:        "C12",
+		Isolate:   true,
+		RetrySafe: true,
+		Level:     "exploration",
 		Rule: "three kinds of runs. (A, half of the runs) one seeded world (platform or processor CA), honest or with one of 29 static faults (wire, endpoint, revocation, TCB status, clock, pool, signature; out-of-date copies of the root / intermediate / leaf / collateral signer / CRL issuer as carried in the quote and in issuer-chain headers while the pool holds the current root; stale CRL or TCB Info; two CRL distribution points serving different CRLs; a decoy issuer-chain header under a case-variant name), verified under all four option settings with a recording fetcher: monotonicity acc(O2)=>acc(O1)=>acc(O0), O3 rejects, the same verdicts on networks with other (simulated) service times per URL and on 4-48 plain repetitions, zero fetches without the collateral option, CRL routes only with revocation, fmspc / ca query parameters equal to what the CA put in the leaf. (B) two histories of 2-6 verifications (quotes of up to 3 worlds, flags / pool / times edited between calls, per-call wire / clock / pool faults, the PCS starting to serve other data for the platform between calls) each through ONE options value, interleaved by the seeded scheduler at the Getter seam; every verdict compared with a fresh options value. (C) the same with Options.Now unset on the testing/synctest fake clock with jumps of hours / weeks / decades between calls. " +
 			"distinct = (fault, CA kind, verdict vector) resp. (history length, switches) resp. (calls, expiry seen)",
 		Assumptions: []string{"number, order and repetition of fetches are not judged, only which routes may be contacted and their parameters"},
@@ -555,7 +562,77 @@ func init() {
 			return 800
 		},
 		Run:         c12Run,
-		MustProbe:   []string{"processor_ca_world", "tcb_url_checked", "pckcrl_url_checked_platform", "pckcrl_url_checked_processor", "shared_options_history", "expiry_between_calls_under_default_time", "same_world_on_other_network_timings", "served_data_changes_between_calls"},
+		MustProbe:   []string{"processor_ca_world", "tcb_url_checked", "pckcrl_url_checked_platform", "pckcrl_url_checked_processor", "shared_options_history", "expiry_between_calls_under_default_time", "same_world_on_other_network_timings", "served_data_changes_between_calls", "two_callers_with_their_own_getters_overlapping"},
 		SimTimeNote: "part C: fake-clock time covered by the clock-jump histories",
 	})
+}
+
+// c12Overlap: two callers verify the same quote at overlapping (simulated) times, each with its OWN getter; the
+// two getters answer the same URLs with different data (one serves a PCK CRL that revokes the leaf).  Each
+// verdict depends on the data ITS getter served, not on what the other caller happened to be fetching.
+func c12Overlap(r *core.Run, w *world.World, raw []byte, pool *x509.CertPool, times [5]time.Time) {
+	t := r.T
+	honest := w.PCS
+	save := w.PckCrl.Revoked
+	w.PckCrl.Revoked = append(append([]*big.Int(nil), save...), w.LeafSerial())
+	w.Publish()
+	revoking := w.PCS
+	w.PckCrl.Revoked = save
+	w.Publish()
+	w.PCS = honest
+	slowIsHonest := t.Bool()
+	slow, fast := honest, revoking
+	if !slowIsHonest {
+		slow, fast = revoking, honest
+	}
+	slow.Latency = func(world.Request, int) time.Duration { return 700 * time.Millisecond }
+	fast.Latency = func(world.Request, int) time.Duration { return time.Millisecond }
+	startFast := time.Duration(50+t.Draw(2500)) * time.Millisecond
+	var oSlow, oFast core.Outcome
+	leak := ""
+	func() {
+		defer func() {
+			if p := recover(); p != nil {
+				leak = fmt.Sprint(p)
+			}
+		}()
+		synctest.Test(r.TB, func(*testing.T) {
+			slow.InBubble, fast.InBubble = true, true
+			defer func() { slow.InBubble, fast.InBubble = false, false }()
+			var wg sync.WaitGroup
+			wg.Add(2)
+			go func() {
+				defer wg.Done()
+				oSlow = core.Call(func() error { return verify.RawTdxQuote(raw, mkOpts(O2, slow, pool, times)) })
+			}()
+			go func() {
+				defer wg.Done()
+				time.Sleep(startFast)
+				oFast = core.Call(func() error { return verify.RawTdxQuote(raw, mkOpts(O2, fast, pool, times)) })
+			}()
+			wg.Wait()
+		})
+	}()
+	slow.InBubble, fast.InBubble = false, false
+	honest.Latency = nil
+	if w.NetLat > 0 {
+		honest.Latency = world.LatencyProfile(w.NetLat)
+	}
+	r.Eval()
+	r.Probe("two_callers_with_their_own_getters_overlapping")
+	r.Eventf("overlap: slow getter serves %s, fast one (from %v) the other -> slow:%s fast:%s", tern(slowIsHonest, "the honest CRL", "the revoking CRL"), startFast, errClass(oSlow), errClass(oFast))
+	if leak != "" {
+		r.Violate("C12:overlap:goroutines-left-blocked", "after two overlapping verifications goroutines were still blocked: %s", leak)
+		return
+	}
+	accHonest, accRevoking := oSlow.Accepted(), oFast.Accepted()
+	if !slowIsHonest {
+		accHonest, accRevoking = oFast.Accepted(), oSlow.Accepted()
+	}
+	if accRevoking {
+		r.Violate("C12:verdict-depends-on-another-callers-fetch", "two callers verified the same quote at overlapping times with their own getters; the one whose getter serves a PCK CRL revoking the leaf ACCEPTED (it was judged on what the other caller fetched)")
+	}
+	if !accHonest {
+		r.Violate("C12:verdict-depends-on-another-callers-fetch", "two callers verified the same quote at overlapping times with their own getters; the one whose getter serves the honest collateral REJECTED: %s", tern(slowIsHonest, oSlow.ErrText(), oFast.ErrText()))
+	}
 }
